@@ -140,7 +140,9 @@ def run_isolated(fn, arg, timeout=120.0):
 
 
 def _viol_key(v):
-    return (v.get("clause"), v.get("cls"))
+    # the exception type is part of the identity of a violation: a reduction that turns the
+    # failure into another exception (e.g. an out-of-domain parameter combination) is not kept
+    return (v.get("clause"), v.get("cls"), (v.get("facts") or {}).get("exc"))
 
 
 _COV = {"on": False, "lines": set(), "prefix": None}
@@ -362,7 +364,7 @@ def replay(scenario, path):
     print(f"replay digest={res['digest']} expected={rp.get('digest')}")
     known = load_known()
     rc = 0
-    same_key = [v for v in res["violations"] if _viol_key(v) == (exp.get("clause"), exp.get("cls"))]
+    same_key = [v for v in res["violations"] if _viol_key(v)[:2] == (exp.get("clause"), exp.get("cls"))]
     if same_key:
         v = same_key[0]
         print(f"reproduced: clause={v['clause']} cls={v.get('cls')} detail={v.get('detail')}")
